@@ -240,9 +240,18 @@ def r2_r3_r4(cx):
         # generate_report uses the same table
         gr = m.func("%s.generate_report" % o["cls"], "C09.R4")
         lps = [s for s in walk_body(gr.body) if isinstance(s, ast.For)]
-        cx.require(bool(lps) and U(lps[0].iter) == "%s.items()" % db_attr, lps[0] if lps else gr, "%s.generate_report() lists the same table" % o["cls"],
+        via_mapping = bool(lps) and U(lps[0].iter) == "self.mapping()" and isinstance(lps[0].target, ast.Name) and not has_exit(lps[0].body)
+        cx.require(bool(lps) and (U(lps[0].iter) == "%s.items()" % db_attr or via_mapping), lps[0] if lps else gr, "%s.generate_report() lists the same table" % o["cls"],
                    construct="for %s in %s" % (U(lps[0].target), U(lps[0].iter)) if lps else "(no loop)")
-        if lps:
+        if via_mapping:
+            # rows are taken from mapping() (whose roles were checked above): the column order must still match the header
+            fm = [x for x in find_calls(lps[0].body, attr="format")]
+            hdr = [const_str(e) for e in ast.walk(gr) if isinstance(e, ast.Constant) and isinstance(e.value, str) and e.value.startswith("Obfuscated ")]
+            ev_ = U(lps[0].target)
+            ok = bool(fm) and bool(hdr) and [U(a) for a in fm[0].args] == ["%s['obfuscated']" % ev_, "%s['original']" % ev_] and hdr[0].split(",")[1].startswith("Original") \
+                and not guard_texts(fm[0], stop=lps[0])
+            cx.require(ok, fm[0] if fm else lps[0], "%s report rows are (obfuscated, original) of every mapping() entry under the header '%s'" % (o["cls"], hdr[0] if hdr else "?"))
+        elif lps:
             fm = [x for x in find_calls(lps[0].body, attr="format")]
             hdr = [const_str(e) for e in ast.walk(gr) if isinstance(e, ast.Constant) and isinstance(e.value, str) and e.value.startswith("Obfuscated ")]
             if fm and hdr:
